@@ -22,6 +22,7 @@ import (
 	"github.com/grailbio/bigslice/exec"
 
 	"verifsim/interp"
+	"verifsim/simfs"
 	"verifsim/simnet"
 	"verifsim/spec"
 )
@@ -99,6 +100,15 @@ type World struct {
 	viol    []violation
 	uevents []string
 	onYield func(point, key string)
+	fsys    *simfs.FS
+}
+
+// sinceStart returns fake nanoseconds since the start of the run (0 before it).
+func (w *World) sinceStart() int64 {
+	if w.t0.IsZero() {
+		return 0
+	}
+	return int64(time.Since(w.t0))
 }
 
 type violation struct {
@@ -169,6 +179,42 @@ func Main(t *testing.T) {
 		cleanup()
 		os.Exit(0)
 	}
+	// Simulated file system.
+	fsys := simfs.Global()
+	if c.FS != nil {
+		if c.FS.Load != "" {
+			if err := fsys.Load(c.FS.Load); err != nil {
+				t.Fatalf("loading fs snapshot: %v", err)
+			}
+		}
+		for p, data := range c.FS.Preload {
+			fsys.Put(p, data)
+		}
+		for _, p := range c.FS.Remove {
+			fsys.Delete(p)
+		}
+		fsys.SetFaults(c.FS.Faults)
+		fsys.OnCrash = func() {
+			if c.FS.Dump != "" {
+				fsys.Dump(c.FS.Dump)
+			}
+			o := w.outcome()
+			if o.Extra == nil {
+				o.Extra = map[string]any{}
+			}
+			o.Extra["crashed"] = true
+			finish(o)
+		}
+	}
+	fsys.OnOp = func(op simfs.Op) {
+		atomic.AddInt64(&progress, 1)
+		w.mu.Lock()
+		if len(w.uevents) < 200000 {
+			w.uevents = append(w.uevents, fmt.Sprintf("%d fs:%s %s %s", w.sinceStart(), op.Op, op.Path, op.Decision))
+		}
+		w.mu.Unlock()
+	}
+	w.fsys = fsys
 	// Real-time stall watchdog, outside the bubble.
 	go func() {
 		last := int64(-1)
@@ -234,6 +280,11 @@ func (w *World) outcome() *Outcome {
 		for _, e := range w.sys.Events() {
 			lines = append(lines, e.String())
 			order = append(order, fmt.Sprintf("%s %s %s %s#%d %s", e.Point, e.Method, e.Callee, e.Key, e.Occ, e.Decision))
+		}
+	}
+	if w.fsys != nil {
+		for k, v := range w.fsys.Fired() {
+			o.Fired[k] += v
 		}
 	}
 	lines = append(lines, uev...)
@@ -323,6 +374,7 @@ func (w *World) run() *Outcome {
 	}
 	w.sess = exec.Start(opts...)
 
+	w.checkCacheFiles("at start")
 	done := make(chan struct{})
 	go func() {
 		w.script("", c.Script)
@@ -339,10 +391,20 @@ func (w *World) run() *Outcome {
 		return o
 	}
 	w.checkObservers()
+	w.checkCacheFiles("at end")
+	if c.FS != nil && c.FS.Dump != "" {
+		w.fsys.Dump(c.FS.Dump)
+	}
 	pl := w.checkPlacement()
 	gsha := w.checkGraphs()
 	o := w.outcome()
 	o.GraphSHA = gsha
+	if c.Oracle.SiteCalls {
+		if o.Extra == nil {
+			o.Extra = map[string]any{}
+		}
+		o.Extra["site_calls"] = w.siteCalls()
+	}
 	if pl != nil {
 		if o.Extra == nil {
 			o.Extra = map[string]any{}
